@@ -275,7 +275,26 @@ Definition disconnect (g : global) (a : ipaddr) (r : role) : global :=
 Inductive op :=
 | OConnect (a : ipaddr) (r : role)
 | ODisconnect (a : ipaddr) (r : role)     (* the connection (a, r), if there is one, ends *)
-| OAdmin (a : ipaddr) (down : bool).      (* disable / enable a neighbour *)
+| OAdmin (a : ipaddr) (down : bool)       (* the admin_down flag alone *)
+| ODisable (a : ipaddr)                   (* grpc.rs disable_peer, and the connection tasks it ends *)
+| OEnable (a : ipaddr)                    (* grpc.rs enable_peer *)
+| ODelete (a : ipaddr).                   (* grpc.rs delete_peer, and the connection tasks it ends *)
+
+(* disable_peer: admin_down is set and force_down takes both close senders
+   and tells the tasks to stop; each task then runs the end of
+   PeerSession::run, which finds no connection left: a dynamic neighbour that
+   had a connection is removed *)
+Definition disable (g : global) (a : ipaddr) : global :=
+  match lookup a (gl_peers g) with
+  | Some p =>
+      if pe_admin_down p then g
+      else
+        let had := pe_conn_active p || pe_conn_passive p in
+        let p' := set_conn (set_conn (set_admin p true) RActive false) RPassive false in
+        if had && pe_delete p then set_peers g (remove a (gl_peers g))
+        else set_peers g (update a p' (gl_peers g))
+  | None => g
+  end.
 
 Definition step_op (g : global) (o : op) : global * option (option session) :=
   match o with
@@ -294,6 +313,13 @@ Definition step_op (g : global) (o : op) : global * option (option session) :=
       | Some p => (set_peers g (update a (set_admin p b) (gl_peers g)), None)
       | None => (g, None)
       end
+  | ODisable a => (disable g a, None)
+  | OEnable a =>
+      match lookup a (gl_peers g) with
+      | Some p => (set_peers g (update a (set_admin p false) (gl_peers g)), None)
+      | None => (g, None)
+      end
+  | ODelete a => (set_peers g (remove a (gl_peers g)), None)
   end.
 
 Definition run_ops (g : global) (ops : list op) : global := fold_left (fun g o => fst (step_op g o)) ops g.
